@@ -19,7 +19,7 @@ pub fn check(tier: Tier) -> Check {
     ] {
         parts.push(Part::new(
             "C17/resume",
-            json!({"depth": tier.pick(6, 8), "expiry": expiry, "secs_ago": ago}),
+            json!({"depth": tier.pick(5, 7), "expiry": expiry, "secs_ago": ago}),
             0,
             tier.pick(15, 300),
         ));
@@ -28,7 +28,7 @@ pub fn check(tier: Tier) -> Check {
         also_rel: false,
         property: "C17",
         level: "model_checking",
-        rule: "all histories of QoS 1/2 publishes and acknowledgements (success / failing) up to the stated depth; the connection is lost (EOF) after every prefix; the hook records the disconnection secs_ago seconds ago; set_up + connect (same options) + run on a fresh transport; the second wire must show CONNECT followed by exactly the unfinished PUBLISH (DUP=1, same id and content) / PUBREL packets in original order when the session has not expired, nothing when it has; then the acknowledgements arrive on the new connection and a fresh publish follows; session expiry in {0, 1000 s, never} x secs_ago in {10, 100000}; non-trivial = something had to be re-sent or an expired session had abandoned operations".into(),
+        rule: "all histories of QoS 1/2 publishes, pings, subscribes, unsubscribes and their acknowledgements (success / failing) up to the stated depth; the connection is lost (EOF) after every prefix; the hook records the disconnection secs_ago seconds ago; set_up + connect (same options) + run on a fresh transport; the second wire must show CONNECT followed by exactly the unfinished PUBLISH (DUP=1, same id and content) / PUBREL packets in original order when the session has not expired, nothing when it has; then the acknowledgements arrive on the new connection and a fresh publish follows; session expiry in {0, 1000 s, never} x secs_ago in {10, 100000}; non-trivial = something had to be re-sent or an expired session had abandoned operations".into(),
         assumptions: vec![
             "same ConnectOpts on both connections; secs_ago is >= 100 s away from the expiry boundary (the wall clock is not behind a seam)".into(),
             "the disconnection is recorded by the cfg(poster_verif) hook, production code never records it".into(),
@@ -65,9 +65,14 @@ pub fn scenario(name: &str, params: &Value) -> Scenario {
         if !sys.dead {
             sys.start_run();
         }
+        // other requests awaiting their acknowledgement sit between the publishes in the client's
+        // bookkeeping; they are never re-sent
         let specs = vec![
             OpSpec::Publish(PublishSpec::simple(1, "t/a", b"one")),
             OpSpec::Publish(PublishSpec::simple(2, "t/b", b"two")),
+            OpSpec::Ping,
+            OpSpec::Subscribe(SubscribeSpec::simple("s/a")),
+            OpSpec::Unsubscribe(UnsubscribeSpec::simple("s/a")),
         ];
         // the history; its length is chosen too, so that the loss happens after every prefix
         let len = chz.choose(depth + 1);
@@ -75,7 +80,7 @@ pub fn scenario(name: &str, params: &Value) -> Scenario {
             if sys.dead {
                 break;
             }
-            let mut e = start_events(&sys, &specs, 3, 2);
+            let mut e = start_events(&sys, &specs, 4, 2);
             e.extend(broker_acks(&sys, true, false));
             let i = chz.choose(e.len());
             sys.apply(e[i].clone());
@@ -111,7 +116,11 @@ pub fn scenario(name: &str, params: &Value) -> Scenario {
                 if sys.dead {
                     break;
                 }
-                let e = broker_acks(&sys, false, false);
+                // only the publish handshakes continue on the new connection
+                let e: Vec<Ev> = (0..sys.m.ops.len())
+                    .filter(|&i| matches!(sys.m.ops[i].spec, OpSpec::Publish(_)))
+                    .filter_map(|i| sys.ack_for(i, 0, "").map(Ev::Deliver))
+                    .collect();
                 if e.is_empty() {
                     break;
                 }
